@@ -160,6 +160,27 @@ impl QueryNode {
     pub async fn query_for_tenant(&self, sql: &str, tenant_id: &str) -> Result<Vec<RecordBatch>> {
         let started = Instant::now();
         let result = async {
+            // Before its first query the node knows `metrics` only as an empty table with the
+            // built-in default schema. A statement whose window selects no chunk would then be
+            // evaluated against that schema and fail on the data's own columns or timestamp
+            // type instead of returning an empty answer. Bind the table to a known chunk once,
+            // so that even the empty table carries the data's schema.
+            if !self.engine.is_bound_to_data() {
+                let mut known: Vec<String> = self
+                    .metadata
+                    .list_chunks()
+                    .await?
+                    .into_iter()
+                    .map(|chunk| chunk.chunk_path)
+                    .collect();
+                known.sort();
+                if let Some(first) = known.first() {
+                    self.engine
+                        .register_metrics_table_for_chunks(std::slice::from_ref(first))
+                        .await?;
+                }
+            }
+
             // Parse query for pruning inputs. If the logical `metrics` table has not
             // been registered yet, bootstrap with all known chunks and retry parsing.
             let (time_range, predicates) = match (
